@@ -45,6 +45,7 @@ type mSym struct {
 	typ    types.Type
 	rt     types.Type // for the result of reflect.TypeOf: the type described
 	msg    mv         // for an error made by errors.New: its text
+	rv     mv         // for the result of reflect.ValueOf: the value described (rt: its dynamic type; rt == nil: the zero Value)
 }
 
 type mStruct []mv
@@ -1317,8 +1318,17 @@ func (m *mach) invoke(fr *mframe, fn mv, args []mv, env []mv, at ssa.Instruction
 			switch f.method.Name() {
 			case "Comparable":
 				return types.Comparable(f.recv.rt)
+			case "Kind":
+				if k, ok := reflectKind(f.recv.rt); ok {
+					return k
+				}
+			case "Elem":
+				if et := reflectElem(f.recv.rt); et != nil {
+					return &mSym{name: "reflect.TypeOf(" + et.String() + ")", nonNil: true, rt: et}
+				}
 			case "String":
-				return f.recv.rt.String()
+				// as package reflect prints types: qualified by the package name, not its path
+				return types.TypeString(f.recv.rt, func(p *types.Package) string { return p.Name() })
 			}
 		}
 		if f.recv.msg != nil && f.method.Name() == "Error" && len(args) == 0 {
